@@ -647,6 +647,8 @@ type c05Scenario struct {
 	Base    string // directory with the pristine tree
 	Old     map[string]c05File
 	OldSnap map[string]Entry
+	Final   map[string]c05File                                           // the tree after a complete, undisturbed run (no strace)
+	Twin    string                                                       // stale-tmp: the same tree without the stale file; its complete run defines "new"
 	Expect  func(s *c05Scenario, prog []c05Action, stdout string) string // coverage floor; "" = fine
 }
 
@@ -782,8 +784,12 @@ func c05Build(name string, variant int, seed uint64, root string) *c05Scenario {
 		}
 	case "stale-tmp":
 		// a file of the user's that happens to bear the temporary name (known finding)
-		t.Write("cat/pkg/Makefile", c05Makefile(r, 1+r.Intn(3)))
-		t.Write("cat/pkg/Makefile.pkglint.tmp", "precious "+fmt.Sprint(r.Intn(1000))+"\n")
+		pl := c05Plist(r, true, r.Bool())
+		t.Write("cat/pkg/PLIST", pl)
+		s.Twin = filepath.Join(filepath.Dir(root), "twin")
+		NewBaseTree(s.Twin).Write("cat/pkg/PLIST", pl)
+		// longer than the new PLIST: a save that does not truncate shows as well
+		t.Write("cat/pkg/PLIST.pkglint.tmp", strings.Repeat("precious "+fmt.Sprint(r.Intn(1000))+"\n", 60))
 	}
 	s.Old = c05ReadTree(root)
 	s.OldSnap = Snapshot(root)
@@ -808,6 +814,7 @@ func c05ReadTree(root string) map[string]c05File {
 
 type c05Run struct {
 	RunResult
+	CorrOK  bool // baseline only: the projected trace equals the model's operation list
 	Root    string
 	Ops     []c05Op
 	Trace   *straceTrace
@@ -1061,7 +1068,17 @@ func c05DiffFiles(a, b map[string]c05File) []string {
 
 // specBad asks the extracted specification (first_bad) whether the tree `cur`
 // is acceptable after a run of prog on old; it returns the offending path.
-func c05SpecBad(ctx *Ctx, old map[string]c05File, umask int, prog []c05Action, cur map[string]c05File) (string, error) {
+func c05SpecBad(ctx *Ctx, s *c05Scenario, umask int, prog []c05Action, cur map[string]c05File) (string, error) {
+	// "new content" is, first of all, what the complete undisturbed run leaves
+	// (known without any trace); the saves seen in the trace add the
+	// intermediate contents of files that are saved more than once
+	old := s.Old
+	prog = append([]c05Action{}, prog...)
+	for _, p := range sortedKeys(s.Final) {
+		if o, ok := s.Old[p]; ok && o.Data != s.Final[p].Data {
+			prog = append(prog, c05Action{Kind: "S", Path: p, Data: s.Final[p].Data})
+		}
+	}
 	req := "snap / " + c05InitTokens(old, umask) + " / " + c05ProgTokens(prog) + " / " + c05InitTokens(cur, umask)
 	a, err := c05Oracle1(ctx, req)
 	if err != nil {
@@ -1111,6 +1128,15 @@ func (st *c05State) baseline(s *c05Scenario) (*c05Run, []c05Action, bool) {
 	plain := RunPkglint(ctx, root, 30*time.Second, s.Args...)
 	plainAfter := c05ReadTree(root)
 	os.RemoveAll(filepath.Dir(root))
+	s.Final = plainAfter
+	if s.Twin != "" {
+		tw := RunPkglint(ctx, s.Twin, 30*time.Second, s.Args...)
+		if tw.Exit != plain.Exit {
+			res.Broken = fmt.Sprintf("scenario %s: twin run exit=%d", s.Name, tw.Exit)
+			return nil, nil, false
+		}
+		s.Final = c05ReadTree(s.Twin)
+	}
 	if plain.TimedOut || plain.Exit < 0 || plain.Exit > 1 {
 		res.Broken = fmt.Sprintf("scenario %s: plain run exit=%d signal=%s stderr=%.300s", s.Name, plain.Exit, plain.Signal, plain.Stderr)
 		return nil, nil, false
@@ -1143,7 +1169,7 @@ func (st *c05State) baseline(s *c05Scenario) (*c05Run, []c05Action, bool) {
 		}
 	}
 	// the complete, undisturbed run is the last crash point: old-or-new, nothing lost
-	if bad, err := c05SpecBad(ctx, s.Old, st.umask, prog, plainAfter); err != nil {
+	if bad, err := c05SpecBad(ctx, s, st.umask, prog, plainAfter); err != nil {
 		st.broken(err.Error())
 		return nil, nil, false
 	} else if bad != "" {
@@ -1202,6 +1228,7 @@ func (st *c05State) baseline(s *c05Scenario) (*c05Run, []c05Action, bool) {
 	st.evals(1, 1)
 	obs := c05OpTokens(run.Ops)
 	corrOK := model == obs && len(indep) == 0
+	run.CorrOK = corrOK
 	if !corrOK {
 		what := "observed: " + c05OpsString(run.Ops)
 		if len(indep) > 0 {
@@ -1237,7 +1264,13 @@ func (st *c05State) baseline(s *c05Scenario) (*c05Run, []c05Action, bool) {
 		}
 	}
 	if modelable && s.Name != "stale-tmp" {
-		a, err := c05Oracle1(ctx, "crash / "+init+" / "+progT+" / "+obs)
+		specProg := append([]c05Action{}, prog...)
+		for _, p := range sortedKeys(s.Final) {
+			if o, ok := s.Old[p]; ok && o.Data != s.Final[p].Data {
+				specProg = append(specProg, c05Action{Kind: "S", Path: p, Data: s.Final[p].Data})
+			}
+		}
+		a, err := c05Oracle1(ctx, "crash / "+init+" / "+c05ProgTokens(specProg)+" / "+obs)
 		if err != nil {
 			st.broken(err.Error())
 			return nil, nil, false
@@ -1304,7 +1337,7 @@ func (st *c05State) kill(s *c05Scenario, base *c05Run, prog []c05Action, k int) 
 	res.Count("kill_before_"+c05OpKindName(hitOp), 1)
 	done := base.Ops[:hit]
 	// the property itself, decided by the extracted specification
-	bad, err := c05SpecBad(ctx, s.Old, st.umask, prog, run.After)
+	bad, err := c05SpecBad(ctx, s, st.umask, prog, run.After)
 	if err != nil {
 		st.broken(err.Error())
 		return hit
@@ -1481,7 +1514,7 @@ func (st *c05State) fault(s *c05Scenario, base *c05Run, prog []c05Action, k int,
 		}
 	}
 	// 1. the property: old-or-new for every original file, nothing missing
-	bad, err := c05SpecBad(ctx, s.Old, st.umask, progF, run.After)
+	bad, err := c05SpecBad(ctx, s, st.umask, progF, run.After)
 	if err != nil {
 		st.broken(err.Error())
 		return true
@@ -1507,7 +1540,8 @@ func (st *c05State) fault(s *c05Scenario, base *c05Run, prog []c05Action, k int,
 	// 3. the failed save leaves the file untouched: it holds what it held before
 	// that save (the old content, or the content of an earlier save of this run),
 	// unless a later save of this run replaced it
-	if hitOp.Kind != "m" {
+	// (decidable from the trace only when the run follows the model's protocol)
+	if hitOp.Kind != "m" && base.CorrOK {
 		want := s.Old[failed].Data
 		for _, a := range c05CleanSaves(base.Ops[:hit], 0) {
 			if a.Path == failed {
@@ -1656,7 +1690,7 @@ func (st *c05State) shortWrite(s *c05Scenario, prog []c05Action, limit int) {
 		return
 	}
 	res.Count("short_write_runs", 1)
-	bad, err := c05SpecBad(ctx, s.Old, st.umask, prog, run.After)
+	bad, err := c05SpecBad(ctx, s, st.umask, prog, run.After)
 	if err != nil {
 		st.broken(err.Error())
 		return
